@@ -668,13 +668,14 @@ class Explorer:
                     elif tg.get(1) == b:
                         truth = True
                     if truth is not None:
-                        name, neg = fact
+                        names, neg = fact
                         val = (not truth) if neg else truth
                         # a contradicting fact already known makes the edge infeasible
                         known = dict(facts)
-                        if name in known and known[name] != val:
+                        nl = names.split('|')
+                        if any(n in known and known[n] != val for n in nl):
                             continue
-                        env2 = (aut, cells_t, frozenset(set(facts) | {(name, val)}))
+                        env2 = (aut, cells_t, frozenset(set(facts) | {(n, val) for n in nl}))
                 yield (E, b, dict(loc), env2, None)
             return
         if k == 'call':
